@@ -599,9 +599,23 @@ func genTemporal(r *lib.RNG, kind string) caseT {
 		cs.P = r.Intn(7)
 	}
 	var y int
-	switch r.Intn(10) {
+	switch r.Intn(11) {
 	case 0:
 		cs.Val = fmt.Sprint(zeroUs)
+		return cs
+	case 10: // neighbourhood of the zero date and of the upper end of the range (truncation / rounding across them)
+		base := zeroUs
+		if r.Bool() {
+			base = time.Date(10000, 1, 1, 0, 0, 0, 0, time.UTC).UnixMicro()
+		}
+		off := int64(r.Uint64()%uint64(2*usPerDay)) - usPerDay
+		switch r.Intn(4) {
+		case 0:
+			off = int64(r.Intn(5)) - 2
+		case 1:
+			off = int64(r.Intn(2000001)) - 1000000
+		}
+		cs.Val = fmt.Sprint(base + off)
 		return cs
 	case 1:
 		y = lib.Pick(r, []int{0, 1, 9, 10, 99, 100, 999, 1000, 9999, 1969, 1970, 2000, 2100, 2400})
@@ -892,6 +906,12 @@ func main() {
 			{Kind: "decimal", Col: false, P: 5, S: 2, Val: "15", Exp: -1},
 			{Kind: "date", Val: fmt.Sprint(zeroUs)},
 			{Kind: "date", Val: dateUs(0, 1, 1)},
+			{Kind: "date", Val: "-62169937160312244"}, // zero day + 13 h: truncated to the zero date
+			{Kind: "date", Val: "-62169897600000001"}, // last microsecond of the zero day
+			{Kind: "date", Val: fmt.Sprint(zeroUs - 1)},
+			{Kind: "datetime", P: 0, Val: fmt.Sprint(zeroUs - 1)},
+			{Kind: "datetime", P: 6, Val: fmt.Sprint(zeroUs + 1)},
+			{Kind: "datetime", P: 3, Val: fmt.Sprint(zeroUs + 499)},
 			{Kind: "date", Val: dateUs(9999, 12, 31)},
 			{Kind: "datetime", P: 0, Val: fmt.Sprint(zeroUs)},
 			{Kind: "datetime", P: 6, Val: fmt.Sprint(time.Date(9999, 12, 31, 23, 59, 59, 999999000, time.UTC).UnixMicro())},
